@@ -450,10 +450,19 @@ package parser
 //@   modifies regExpParser.chr, regExpParser.chrOffset, regExpParser.offset, regExpParser.errors, regExpParser.invalid, elems(error), elems(byte)
 //@   nothrow
 
+// 15.10.1 inside a group: "\\" starts an escape, "(" a nested group, "[" a character class -
+// each is handed to its own scanner (so that ")" inside a class or an escaped ")" does not
+// close the group); every other character is passed through
 //@ func (*regExpParser).scanGroup
 //@   props C04 C10
 //@   safety C04 C10
 //@   requires wfRE(p)
+//@   calls (*regExpParser).scanEscape(_, _) as se when false
+//@   calls (*regExpParser).scanGroup(_) as sg when false
+//@   calls (*regExpParser).scanBracket(_) as sb when false
+//@   at_backedge@1 athead(1, p.chr) == 92 ==> ncalls(se) > athead(1, ncalls(se))
+//@   at_backedge@1 athead(1, p.chr) == 40 ==> ncalls(sg) > athead(1, ncalls(sg))
+//@   at_backedge@1 athead(1, p.chr) == 91 ==> ncalls(sb) > athead(1, ncalls(sb))
 //@   invariant@1 wfRE(p) && sameRE(p) && p.offset >= old(p.offset) && p.chrOffset >= old(p.chrOffset) && reLE(p)
 //@   decreases@1 up p.offset to p.length ; bool2int(p.chr >= 0)
 //@   ensures wfRE(p)
